@@ -36,4 +36,11 @@ def expectedFor_C11 : List (String × String) := [
 /-- the code behind C11 branches on exactly the conditions the model was written against -/
 theorem conditions_as_modelled_C11 : Gen.condSitesFor_C11 = expectedFor_C11 := by rfl
 
+def expectedOptFor_C11 : List (String × String) := [
+  ("v2/object.go:jsonObject.Diff:getPatchStrategy#1", "own")
+]
+
+/-- every call inside the functions behind C11 passes on the option / metadata list the model passes on -/
+theorem option_plumbing_as_modelled_C11 : Gen.optSitesFor_C11 = expectedOptFor_C11 := by rfl
+
 end Jd.CondSites
